@@ -269,4 +269,35 @@ PROPS = {
                    "commit on top no garbage-collected (dangling) directory manifests. Fetch walks the graph of gather.",
         assumptions=["old manifests have all five fields present (as old dud wrote them)"],
     ),
+    "C03": dict(
+        facts=True,
+        families=[dict(name="crash", args=["-specs", "40,41,42"], timeout=2400)],
+        level_text="Theorems C03_no_loss (every byte string of every tracked file is retrievable - at its path, through "
+                   "a link, or in the cache under its digest - in EVERY cut of a commit, where a directory's cut is the "
+                   "full product of its children's cuts, so every goroutine interleaving is included), "
+                   "C03_no_loss_checked (the same as the boolean evaluated on observed states), C03_no_torn_object, "
+                   "C03_cut_endpoints, C03_checkout_no_loss, C03_metadata_atomic. proof, partial: atomic system calls "
+                   "and rename, persistence of completed calls. Tied to the code by killing the real binary (ptrace, all "
+                   "threads followed) at the entry of EVERY mutating system call of 15 scenarios (file/dir, first "
+                   "commit/recommit over an old manifest, link/copy, rename-able/forced-copy cache, checkout "
+                   "link/copy/over matching links, stage add/remove, two-stage pipeline) and evaluating the three "
+                   "statements in Coq on the observed state.",
+        level_note="Power loss / fsync and SIGKILL delivered inside a system call are outside the model. Source facts: "
+                   "stage files and the index are written to a temp file and renamed.",
+        assumptions=["each mutating system call is atomic w.r.t. SIGKILL; completed calls persist", "rename(2) is atomic"],
+    ),
+    "C04": dict(
+        facts=True,
+        families=[dict(name="fault", args=["-specs", "40,41,43,44,45,46,47"], timeout=2400)],
+        level_text="Theorems C04_fail_is_cut, C04_entry_never_missing, C04_retry (from any state a failing call can leave, "
+                   "the retry returns exactly the undisturbed result), C04_retry_flat_directory, C04_rerun_from_cut, "
+                   "C04_norollback_refuted over the cut semantics with the repaired rollback. proof, partial: nested "
+                   "directories and the lock release are covered by the correspondence runs. Tied to the code by making "
+                   "EVERY mutating system call of 10 commit scenarios fail in turn (EIO/ENOSPC/EACCES, ptrace) and by "
+                   "un-committable entries (foreign link, FIFO, dangling cache link) at every position of a tree; "
+                   "then the cause is removed and the commit retried: no loss, unlocked, non-zero exit, stage files "
+                   "load, retry succeeds and equals the undisturbed final state.",
+        level_note="The release of the lock file itself is not made to fail. A failing call has no partial effect.",
+        assumptions=["a failing system call has no partial effect", "the injected error is transient (gone at the retry)"],
+    ),
 }
